@@ -2,7 +2,7 @@
    Model: Model/Completion.v (completionAtPos at body/label level, bodySchemaCandidates,
    labelCandidatesFromDependentSchema, token lookups), compared with CompletionAtPos on every run. *)
 From Coq Require Import String List ZArith Bool Sorted.
-From HV Require Import Base.Pos Base.SortSpec Model.Schema Model.Ast Model.Completion Proofs.CompletionProofs Proofs.CompletionNoDup.
+From HV Require Import Base.Pos Base.SortSpec Model.Schema Model.Ast Model.Completion Proofs.CompletionProofs Proofs.CompletionNoDup Model.Validate Proofs.CompletionValidates.
 
 (* A complete candidate list is exactly the sorted list of: count / for_each where the extension is
    on, not yet declared and matching the prefix; the attributes of the effective schema that are
@@ -48,3 +48,20 @@ Theorem C07_offered_attribute_can_be_declared : forall b bs prefix p,
   has_prefix prefix (fst p) = true.
 Proof. exact offered_schema_attribute_declarable. Qed.
 Print Assumptions C07_offered_attribute_can_be_declared.
+
+(* Accepting a candidate never makes validation report an unexpected item (Model/Validate.v is the validating walk):
+   for every offered attribute name the walk finds an attribute schema, so whatever it reports about an attribute of
+   that name is not "Unexpected attribute" ... *)
+Theorem C07_accepted_attribute_is_not_unexpected : forall b bs prefix edit c unknown a,
+  In c (allowed b bs prefix edit) -> c_kind c = CKAttr ->
+  forall d, In d (attr_diags unknown (walker_attr_schema bs (c_label c)) a) -> d_kind d <> KUnexpectedAttr.
+Proof. exact accepted_attribute_not_unexpected. Qed.
+Print Assumptions C07_accepted_attribute_is_not_unexpected.
+
+(* ... and for every offered block type it finds a block schema: nothing it reports about a block of that type is
+   "Unexpected block" (the surplus-block side is C07_offered_block_has_room) *)
+Theorem C07_accepted_block_is_not_unexpected : forall b bs prefix edit c unknown k,
+  In c (allowed b bs prefix edit) -> c_kind c = CKBlock -> k_type k = c_label c ->
+  forall d, In d (block_diags unknown (block_schema_for (Some bs) k) k) -> d_kind d <> KUnexpectedBlock.
+Proof. exact accepted_block_not_unexpected. Qed.
+Print Assumptions C07_accepted_block_is_not_unexpected.
